@@ -87,6 +87,19 @@ func runC05(c *fw.Ctx) {
 			}
 		}
 	}
+	for i := 0; i < c.Pick(3000, 30000); i++ { // sizes up to 7
+		c.Case(func(k *fw.K) {
+			shape := BigShape(k.Rng, 1, 600)
+			dim := k.Rng.Intn(len(shape))
+			oi := k.Rng.Intn(len(c05Along))
+			x, cname := c05Data(k, k.Rng.Intn(3), shape)
+			in := ref.Instr{Op: c05Along[oi], Dim: dim}
+			k.Case = map[string]any{"op": in.Op, "dim": dim, "shape": shape, "class": cname}
+			k.Key("%s/%s/%d/%s", in.Op, shapeKey(shape), dim, cname)
+			k.Count("along_cases_big_shapes", 1)
+			c05Along1(k, in, ref.Stat(oi), x)
+		})
+	}
 	// ---- whole-tensor forms ----
 	whole := Shapes(0, R, 3)
 	large := [][]int{{4096}, {8192}, {64, 64}, {2, 4096}, {4096, 2}, {16, 16, 16}, {1, 4096}, {128, 33}, {5, 7, 11, 13}, {2, 2, 2, 2, 2, 128}, {1000}, {37, 111}}
